@@ -675,6 +675,27 @@ def relations(ctx: Ctx, real: Real, rng: random.Random, n: int):
                 ctx.violation(sig, f"RectangularFoV {w_az}x{w_el} deg (off-lattice): boresight ({b2:.4f}, {bel:.4f}), target ({t2:.4f}, {tel:.4f}), "
                               f"margin {margin:.4f} deg: expected {exp}, got {got}",
                               {"w": [w_az, w_el], "b": [b2, bel], "t": [t2, tel], "rotated_by": rr, "expected": exp})
+    # ---- points ON the surface (the statement's positions start there): Earth.radius x unit vector, whose norm rounds an ulp
+    # either side of the radius (D57: arcsin of 1 + 5e-16 -> nan -> "no occultation" in the middle of the night side)
+    from resonaate.physics.bodies import Earth as _Earth
+    srng = np.random.default_rng(20260929)
+    n_surf = 600 if ctx.quick else 20000
+    for i in range(n_surf):
+        u = srng.normal(size=3)
+        u /= np.linalg.norm(u)
+        v = srng.normal(size=3)
+        v /= np.linalg.norm(v)
+        c = float(u @ v)
+        if abs(c) < 0.1:
+            continue
+        t = float(_Earth.radius) * v
+        cls = "umbra" if c < 0 else "full"
+        ctx.case(("surface-sun", i), nontrivial=True)
+        rps = {"t": t.tolist(), "u": u.tolist(), "surface": True}
+        frac = sun_call(ctx, real, t, AU_KM * u, "target on the Earth's surface", rps)
+        if frac is not RAISED:
+            sun_check(ctx, frac, cls, rps, f"target on the Earth's surface, |t| - R = {np.linalg.norm(t) - float(_Earth.radius):.3g} km, "
+                                            f"cosine of the Sun's zenith angle {c:.3f}")
     # ---- exact zenith: the horizontal projection of boresight and / or target is the ZERO vector (not cos(90 deg) = 6e-17):
     # reflexivity (identical vectors are inside, for every size), the elevation clause (a target more than half the
     # elevation extent below a zenith boresight is outside), and no legal direction may raise (seed C14/12)
